@@ -58,8 +58,11 @@ func main() {
 		}
 	} else {
 		err = runConc(o, rep)
-		if err == nil && runLockstep != nil {
+		if err == nil && runLockstep != nil && os.Getenv("C15_CONC_ONLY") == "" {
 			err = runLockstep(o, rep)
+		}
+		if err == nil {
+			err = runRace(o, rep) // thorough tier only: conc again under the race detector
 		}
 	}
 
